@@ -5,8 +5,17 @@ package gcsemu
 // Contracts for contract-based deductive verification (checked by /verif/govc).
 // This file contains comments only and is compiled only with the build tag "verif".
 
+// "validated" protocol (C04/C07): a store mutation must be preceded, in the same key-lock critical section (epoch),
+// by a successful validateConds on the very object that Store.GetMeta returned in that section.
+//@ ghostvar gcsReadEpoch int
+//@ ghostvar gcsReadObj int
+//@ ghostvar gcsReadMetagen int
+//@ ghostvar gcsValidEpoch int
+
 //@ func validateConds
-//@   property C04
+//@   property C04 C07
+//@   modifies ghost(gcsValidEpoch)
+//@   ensures gcsValidEpoch == ((result == nil && obj(obj) == gcsReadObj) ? gcsReadEpoch : -1)
 //@   ensures (result == nil) <==> ((obj == nil && cond.GenerationMatch == 0 && cond.GenerationNotMatch == 0 && cond.MetagenerationMatch == 0 && cond.MetagenerationNotMatch == 0) || (obj != nil && !cond.DoesNotExist && (cond.GenerationMatch == 0 || obj.Generation == cond.GenerationMatch) && (cond.GenerationNotMatch == 0 || obj.Generation != cond.GenerationNotMatch) && (cond.MetagenerationMatch == 0 || obj.Metageneration == cond.MetagenerationMatch) && (cond.MetagenerationNotMatch == 0 || obj.Metageneration != cond.MetagenerationNotMatch)))
 //@   ensures result != nil ==> typeis(result, *httpError) && (as(result, *httpError).code == 412 || as(result, *httpError).code == 304)
 
